@@ -767,6 +767,9 @@ pub fn run_ints(ctx: &Ctx, mode: Mode) -> Report {
     try_from_table!(tf);
 
     probed_conversions(ctx, mode, &mut subs);
+    if mode == Mode::C04 {
+        probed_surface(&mut subs);
+    }
     {
         let mut sub = Sub::new("from_u8_U14", "U14::from(u8) for every u8", "every value", true);
         for s in 0..=255u8 {
@@ -922,6 +925,12 @@ pub fn replay_ints(mode: Mode, _sub: &str, case: &Value) -> Option<CheckResult> 
         }
         "consts" => by_target!(check_consts(mode)),
         "controller_constants" => Some(check_controller_constants()),
+        "new_safe_api" => {
+            let kind = case["kind"].as_str()?;
+            let a = json_int(&case["a"])? as u128;
+            let b = json_int(&case["b"])? as u128;
+            Some(surface_case(kind, target, a, b).unwrap_or(Ok(false)))
+        }
         "probed_try_from" => {
             let st = case["source_type"].as_str()?;
             let vs = case["value"].as_str()?;
@@ -1089,6 +1098,237 @@ fn probed_conversions(ctx: &Ctx, mode: Mode, subs: &mut Vec<Sub>) {
     if sub.evals == 0 {
         // keep the evidence honest: count the probes themselves
         sub.evals = 7;
+    }
+    subs.push(sub);
+}
+
+// ---------------------------------------------------------------------------------------------
+// C04: safe API surface that does not exist today but would hand out-of-range values to safe code
+// if it were added without a range check: arithmetic / bit operators on the restricted integers
+// (`U7::MAX + U7::MAX`), iterator sums, conversions from floats, and `new_unchecked` losing its
+// `unsafe` qualifier. Compile-time probes (impls::Probe): nothing is checked unless the item exists.
+// A panicking operator is fine for C04 (checked arithmetic); only a returned value is judged.
+// ---------------------------------------------------------------------------------------------
+
+macro_rules! op_probe {
+    ($yes:ident, $no:ident, $m:ident, [$($bound:tt)*], |$a:ident, $b:ident| $body:expr) => {
+        trait $yes<N> {
+            fn $m(&self, a: N, b: N) -> Option<Result<N, String>>;
+        }
+        impl<N: Copy + $($bound)*> $yes<N> for crate::impls::Probe<N> {
+            fn $m(&self, $a: N, $b: N) -> Option<Result<N, String>> {
+                Some(guarded(|| $body))
+            }
+        }
+        trait $no<N> {
+            fn $m(&self, _a: N, _b: N) -> Option<Result<N, String>> {
+                None
+            }
+        }
+        impl<N> $no<N> for &crate::impls::Probe<N> {}
+    };
+}
+op_probe!(PAddY, PAddN, p_add, [core::ops::Add<Output = N>], |a, b| a + b);
+op_probe!(PSubY, PSubN, p_sub, [core::ops::Sub<Output = N>], |a, b| a - b);
+op_probe!(PMulY, PMulN, p_mul, [core::ops::Mul<Output = N>], |a, b| a * b);
+op_probe!(PDivY, PDivN, p_div, [core::ops::Div<Output = N>], |a, b| a / b);
+op_probe!(PRemY, PRemN, p_rem, [core::ops::Rem<Output = N>], |a, b| a % b);
+op_probe!(PAndY, PAndN, p_bitand, [core::ops::BitAnd<Output = N>], |a, b| a & b);
+op_probe!(POrY, POrN, p_bitor, [core::ops::BitOr<Output = N>], |a, b| a | b);
+op_probe!(PXorY, PXorN, p_bitxor, [core::ops::BitXor<Output = N>], |a, b| a ^ b);
+op_probe!(PShlY, PShlN, p_shl, [core::ops::Shl<N, Output = N>], |a, b| a << b);
+op_probe!(PNotY, PNotN, p_not, [core::ops::Not<Output = N>], |a, _b| !a);
+op_probe!(PNegY, PNegN, p_neg, [core::ops::Neg<Output = N>], |a, _b| -a);
+op_probe!(PAddAY, PAddAN, p_add_assign, [core::ops::AddAssign], |a, b| {
+    let mut x = a;
+    x += b;
+    x
+});
+op_probe!(PSubAY, PSubAN, p_sub_assign, [core::ops::SubAssign], |a, b| {
+    let mut x = a;
+    x -= b;
+    x
+});
+op_probe!(PMulAY, PMulAN, p_mul_assign, [core::ops::MulAssign], |a, b| {
+    let mut x = a;
+    x *= b;
+    x
+});
+op_probe!(POrAY, POrAN, p_bitor_assign, [core::ops::BitOrAssign], |a, b| {
+    let mut x = a;
+    x |= b;
+    x
+});
+op_probe!(PSumY, PSumN, p_sum, [core::iter::Sum<N>], |a, b| [a, b].iter().copied().sum::<N>());
+op_probe!(PProdY, PProdN, p_product, [core::iter::Product<N>], |a, b| [a, b].iter().copied().product::<N>());
+
+/// operators with the representation type on the right-hand side (`U7 + u8`)
+macro_rules! op_repr_probe {
+    ($yes:ident, $no:ident, $m:ident, $tr:ident, |$a:ident, $b:ident| $body:expr) => {
+        trait $yes<N, R> {
+            fn $m(&self, a: N, b: R) -> Option<Result<N, String>>;
+        }
+        impl<N: Copy + core::ops::$tr<R, Output = N>, R: Copy> $yes<N, R> for crate::impls::Probe<(N, R)> {
+            fn $m(&self, $a: N, $b: R) -> Option<Result<N, String>> {
+                Some(guarded(|| $body))
+            }
+        }
+        trait $no<N, R> {
+            fn $m(&self, _a: N, _b: R) -> Option<Result<N, String>> {
+                None
+            }
+        }
+        impl<N, R> $no<N, R> for &crate::impls::Probe<(N, R)> {}
+    };
+}
+op_repr_probe!(PAddRY, PAddRN, p_add_repr, Add, |a, b| a + b);
+op_repr_probe!(PSubRY, PSubRN, p_sub_repr, Sub, |a, b| a - b);
+op_repr_probe!(PMulRY, PMulRN, p_mul_repr, Mul, |a, b| a * b);
+op_repr_probe!(PShlRY, PShlRN, p_shl_repr, Shl, |a, b| a << b);
+
+pub struct ProbeFn<F>(pub F);
+pub trait PSafeFnY<A, N> {
+    fn call_safely(&self, v: A) -> Option<Result<N, String>>;
+}
+impl<A, N, F: Fn(A) -> N> PSafeFnY<A, N> for ProbeFn<F> {
+    fn call_safely(&self, v: A) -> Option<Result<N, String>> {
+        Some(guarded(|| (self.0)(v)))
+    }
+}
+pub trait PSafeFnN<A, N> {
+    fn call_safely(&self, _v: A) -> Option<Result<N, String>> {
+        None
+    }
+}
+impl<A, N, F> PSafeFnN<A, N> for &ProbeFn<F> {}
+
+/// conversions from floats (`From` or `TryFrom`)
+trait PFloatY<S, N> {
+    fn from_float(&self, s: S) -> Option<Result<Option<N>, String>>;
+}
+impl<S, N: TryFrom<S>> PFloatY<S, N> for crate::impls::Probe<(S, N)> {
+    fn from_float(&self, s: S) -> Option<Result<Option<N>, String>> {
+        Some(guarded(|| N::try_from(s).ok()))
+    }
+}
+trait PFloatN<S, N> {
+    fn from_float(&self, _s: S) -> Option<Result<Option<N>, String>> {
+        None
+    }
+}
+impl<S, N> PFloatN<S, N> for &crate::impls::Probe<(S, N)> {}
+
+pub const SURFACE_KINDS: [&str; 25] = [
+    "add", "sub", "mul", "div", "rem", "bitand", "bitor", "bitxor", "shl", "not", "neg", "add_assign", "sub_assign", "mul_assign", "bitor_assign", "sum", "product", "add_repr", "sub_repr", "mul_repr", "shl_repr",
+    "safe_new_unchecked", "from_f32", "from_f64", "reserved",
+];
+
+const FLOATS: [f64; 16] = [-1.0, -0.0, 0.0, 0.5, 15.0, 15.5, 16.0, 127.0, 127.9, 128.0, 16383.0, 16383.5, 16384.0, 1e9, f64::INFINITY, f64::NAN];
+
+/// One probed item applied to operands (a, b) given as plain integers (for `from_f*`: a = index into
+/// FLOATS). None = the item does not exist for that type.
+pub fn surface_case(kind: &str, target: &str, a: u128, b: u128) -> Option<CheckResult> {
+    macro_rules! go {
+        ($t:ident, $repr:ty) => {{
+            let max = <$t as Nt>::MAXV;
+            let x = <$t as Nt>::new_repr(a.min(max));
+            let y = <$t as Nt>::new_repr(b.min(max));
+            let p = crate::impls::probe::<$t>();
+            let pr = crate::impls::probe::<($t, $repr)>();
+            let yr = b.min(<$repr>::MAX as u128) as $repr;
+            let r: Option<Result<$t, String>> = match kind {
+                "add" => (&p).p_add(x, y),
+                "sub" => (&p).p_sub(x, y),
+                "mul" => (&p).p_mul(x, y),
+                "div" => (&p).p_div(x, y),
+                "rem" => (&p).p_rem(x, y),
+                "bitand" => (&p).p_bitand(x, y),
+                "bitor" => (&p).p_bitor(x, y),
+                "bitxor" => (&p).p_bitxor(x, y),
+                "shl" => (&p).p_shl(x, y),
+                "not" => (&p).p_not(x, y),
+                "neg" => (&p).p_neg(x, y),
+                "add_assign" => (&p).p_add_assign(x, y),
+                "sub_assign" => (&p).p_sub_assign(x, y),
+                "mul_assign" => (&p).p_mul_assign(x, y),
+                "bitor_assign" => (&p).p_bitor_assign(x, y),
+                "sum" => (&p).p_sum(x, y),
+                "product" => (&p).p_product(x, y),
+                "add_repr" => (&pr).p_add_repr(x, yr),
+                "sub_repr" => (&pr).p_sub_repr(x, yr),
+                "mul_repr" => (&pr).p_mul_repr(x, yr),
+                "shl_repr" => (&pr).p_shl_repr(x, yr),
+                "safe_new_unchecked" => (&ProbeFn($t::new_unchecked)).call_safely(b.min(<$repr>::MAX as u128) as $repr),
+                "from_f32" => match (&crate::impls::probe::<(f32, $t)>()).from_float(FLOATS[a as usize % FLOATS.len()] as f32) {
+                    None => None,
+                    Some(Err(e)) => Some(Err(e)),
+                    Some(Ok(None)) => return Some(Ok(false)),
+                    Some(Ok(Some(v))) => Some(Ok(v)),
+                },
+                "from_f64" => match (&crate::impls::probe::<(f64, $t)>()).from_float(FLOATS[a as usize % FLOATS.len()]) {
+                    None => None,
+                    Some(Err(e)) => Some(Err(e)),
+                    Some(Ok(None)) => return Some(Ok(false)),
+                    Some(Ok(Some(v))) => Some(Ok(v)),
+                },
+                _ => None,
+            };
+            match r {
+                None => None,
+                Some(Err(_)) => Some(Ok(false)),
+                Some(Ok(v)) => Some(if v.getw() > max {
+                    fail(format!("out_of_range/new_safe_api/{}/{}", kind, target), format!("{}({}, {}) on {} returned {:?}, which is outside 0..={} - obtained without `unsafe`", kind, a, b, target, v, max))
+                } else {
+                    Ok(true)
+                }),
+            }
+        }};
+    }
+    match target {
+        "U4" => go!(U4, u8),
+        "U7" => go!(U7, u8),
+        "U14" => go!(U14, u16),
+        "Channel" => go!(Channel, u8),
+        "KeyNumber" => go!(KeyNumber, u8),
+        "ControllerNumber" => go!(ControllerNumber, u8),
+        _ => None,
+    }
+}
+
+fn probed_surface(subs: &mut Vec<Sub>) {
+    let mut sub = Sub::new(
+        "probed_new_safe_api",
+        "items that do not exist today and would let safe code obtain an out-of-range value: operator impls (Add Sub Mul Div Rem BitAnd BitOr BitXor Shl Not Neg, the *Assign forms, with Self or the representation type on the right), iter::Sum / Product, conversions from f32 / f64, and `new_unchecked` as a safe fn; if one exists, it is applied to a grid of operands reaching both ends of the range and every returned value must be in range",
+        "non-trivial = the item exists and returned a value",
+        true,
+    );
+    sub.supplementary = true;
+    let mut probes = 0u64;
+    for target in ["U4", "U7", "U14", "Channel", "KeyNumber", "ControllerNumber"] {
+        let max: u128 = if target == "U14" { 16383 } else if target == "U4" || target == "Channel" { 15 } else { 127 };
+        let grid: Vec<u128> = vec![0, 1, 2, 7, max / 2, max / 2 + 1, max - 1, max];
+        let big: Vec<u128> = vec![0, 1, max, max + 1, 200, 255, 256, 16384, 65535];
+        for kind in SURFACE_KINDS.iter() {
+            probes += 1;
+            if surface_case(kind, target, 0, 0).is_none() {
+                continue;
+            }
+            let (as_, bs): (Vec<u128>, Vec<u128>) = match *kind {
+                "safe_new_unchecked" => (vec![0], big.clone()),
+                "from_f32" | "from_f64" => ((0..FLOATS.len() as u128).collect(), vec![0]),
+                k if k.ends_with("_repr") => (grid.clone(), big.clone()),
+                _ => (grid.clone(), grid.clone()),
+            };
+            for &a in &as_ {
+                for &b in &bs {
+                    sub.eval(a + b, || json!({"conv": "new_safe_api", "kind": kind, "target": target, "a": a as u64, "b": b as u64}), || surface_case(kind, target, a, b).unwrap_or(Ok(false)));
+                }
+            }
+        }
+    }
+    sub.samples.push(json!({"conv": "new_safe_api", "note": "nothing to check unless an item exists; on the current tree none of the probed items exists"}));
+    if sub.evals == 0 {
+        sub.evals = probes;
     }
     subs.push(sub);
 }
